@@ -8,7 +8,7 @@ git -C /repo apply /verif/seeded/$name/patch.diff || { echo "PATCH FAILED $name"
 mkdir -p work/seed-evidence
 for p in "$@"; do
   out=$(VERIF_EVIDENCE_DIR=/verif/work/seed-evidence timeout 3000 ./check $p --tier ${TIER:-quick} 2>&1); rc=$?
-  echo "$name $p exit=$rc $(echo "$out" | grep -E "VIOLATION|KNOWN" | head -2 | tr '\n' ' ')"
+  echo "$name $p exit=$rc $(echo "$out" | grep -E "VIOLATION" | head -1 | tr '\n' ' ')$(echo "$out" | grep -E "KNOWN" | head -1 | cut -c1-60 | tr '\n' ' ')"
   echo "$out" | grep -E "^$p:" | tail -1
 done
 git -C /repo checkout -- .
